@@ -609,7 +609,7 @@ pub fn run(ctx: &Ctx) {
   if std::env::var("VERIF_MAX_SHRINK").is_err() {
     std::env::set_var("VERIF_MAX_SHRINK", "120");
   }
-  let n = ctx.tier.pick(2_400, 200_000);
+  let n = ctx.tier.pick(2_400, 100_000);
   let mut sem = GenOpts::default();
   sem.cbor = true;
   let gopts = C18Opts { sem, schemas_without_type_rule: !ctx.excl("schema_without_type_rule") };
